@@ -9,14 +9,22 @@ pub struct ArrayIter<'a>(Box<dyn Iterator<Item = Value<'a>> + 'a>);
 
 impl<'a> ArrayIter<'a> {
     pub uninterp spec fn rest(&self) -> Seq<V>;
+    // the same state as (all elements, position): used by the loop invariants (no `skip` reasoning needed)
+    pub uninterp spec fn all(&self) -> Seq<V>;
+    pub uninterp spec fn pos(&self) -> nat;
 
     #[verifier::external_body]
     pub fn nxt(&mut self) -> (r: Option<Value<'a>>)
         ensures
+            final(self).all() == old(self).all(),
+            old(self).pos() <= old(self).all().len() ==> final(self).pos() <= final(self).all().len(),
             match r {
                 Some(v) => old(self).rest().len() > 0 && v@ == old(self).rest()[0]
-                    && final(self).rest() == old(self).rest().skip(1),
-                None => old(self).rest().len() == 0 && final(self).rest() == old(self).rest(),
+                    && final(self).rest() == old(self).rest().skip(1)
+                    && old(self).pos() < old(self).all().len() && v@ == old(self).all()[old(self).pos() as int]
+                    && final(self).pos() == old(self).pos() + 1,
+                None => old(self).rest().len() == 0 && final(self).rest() == old(self).rest()
+                    && old(self).pos() >= old(self).all().len() && final(self).pos() == old(self).pos(),
             },
     {
         self.0.next()
@@ -25,7 +33,7 @@ impl<'a> ArrayIter<'a> {
 
 #[verifier::external_body]
 pub fn array_iter<'a>(a: &'a dyn Array) -> (r: ArrayIter<'a>)
-    ensures r.rest() == arr_elems(arr_m(a)),
+    ensures r.rest() == arr_elems(arr_m(a)), r.all() == arr_elems(arr_m(a)), r.pos() == 0,
 {
     ArrayIter(a.iter())
 }
@@ -205,3 +213,7 @@ pub fn pat_index<'a, T>(s: &'a [T], p: aho_corasick::PatternID) -> (r: &'a T)
 // a RegexSet reports each matching member index once, and only indices of its patterns
 pub broadcast axiom fn axiom_regexset_hits_bound(s: &RegexSet, v: Seq<char>)
     ensures #[trigger] regexset_hits(s, v).len() <= regexset_patterns(s).len(), regexset_patterns(s).len() <= usize::MAX;
+
+// derived PartialEq of the field-less SolverResult (external_derive): structural
+pub assume_specification[ <SolverResult as PartialEq>::eq ](a: &SolverResult, b: &SolverResult) -> (r: bool)
+    ensures r == (*a == *b);
